@@ -116,7 +116,7 @@ def handleAc (toks : List String) : String :=
   | some (.app op args), some rhs =>
     match ACK.ofOp op, (Expr.app op args).width, BK.ofOp op with
     | some k, some w, _ => if acEquiv k w (.app op args) rhs then "1" else "0"
-    | _, _, some k => if bcEquiv k (.app op args) rhs then "1" else "0"
+    | _, _, some k => if bcEquiv k (.app op args) rhs || (k == .and && andEqNeAuto (.app op args) rhs) then "1" else "0"
     | _, _, _ => "bad-op"
   | _, _ => "bad-op"
 
